@@ -780,6 +780,8 @@ def st_while(self, s: ast.While, st: State) -> Optional[State]:
         self.unrolled_total += 1
         if self.unrolled_total > self.max_unroll:
             raise Unsupported("unroll budget exceeded at line %d" % s.lineno)
+        if self.sym_bytes and n > 600:
+            raise Unsupported("loop at line %d does not terminate within 600 concrete iterations" % s.lineno)
         j = _Jump()
         self._jumps.append(j)
         try:
